@@ -162,8 +162,8 @@ CHECKS["C19"] = {
 CHECKS["C03"] = {
     "level": "exploration",
     "subs": [
-        _sub("TestC03_Sched", 12000, 400000, sq=12, st=12),
+        _sub("TestC03_Sched", 12000, 400000, sq=12, st=8),
         # every interleaving of small two-client scenarios (about 100 interleavings per scenario)
-        _sub("TestC03_Exhaustive", 40, 4000, sq=4, st=4),
+        _sub("TestC03_Exhaustive", 40, 2400, sq=4, st=8),
     ],
 }
